@@ -173,8 +173,84 @@ func (c *Ctx) resolveFuncValue(v ssa.Value, depth int) []*ssa.Function {
 		if call, ok := x.Tuple.(*ssa.Call); ok {
 			return c.resolveReturnedFuncs(call, x.Index, depth)
 		}
+		if lk, ok := x.Tuple.(*ssa.Lookup); ok && x.Index == 0 {
+			return c.resolveTableFuncs(lk, depth)
+		}
+	case *ssa.Lookup:
+		return c.resolveTableFuncs(x, depth)
 	}
 	return nil
+}
+
+// resolveTableFuncs: `handlers[key]` where handlers is a package-level map (or array) of functions that is filled by
+// the package initialiser only: any of the functions stored in it.
+func (c *Ctx) resolveTableFuncs(lk *ssa.Lookup, depth int) []*ssa.Function {
+	ld, ok := lk.X.(*ssa.UnOp)
+	if !ok || ld.Op != token.MUL {
+		return nil
+	}
+	g, ok := ld.X.(*ssa.Global)
+	if !ok || g.Pkg == nil || !inRepo(g.Pkg.Pkg.Path()) {
+		return nil
+	}
+	initFn := g.Pkg.Func("init")
+	if initFn == nil {
+		return nil
+	}
+	// no store to the global, and no update of the table, outside init
+	for _, fn := range c.RepoFuncs() {
+		if fn == initFn || fn.Pkg != g.Pkg {
+			continue
+		}
+		for _, b := range fn.Blocks {
+			for _, ins := range b.Instrs {
+				switch y := ins.(type) {
+				case *ssa.Store:
+					if y.Addr == ssa.Value(g) {
+						return nil
+					}
+				case *ssa.MapUpdate:
+					if l, ok := y.Map.(*ssa.UnOp); ok && l.X == ssa.Value(g) {
+						return nil
+					}
+				}
+			}
+		}
+	}
+	var tables []ssa.Value
+	for _, b := range initFn.Blocks {
+		for _, ins := range b.Instrs {
+			if st, ok := ins.(*ssa.Store); ok && st.Addr == ssa.Value(g) {
+				tables = append(tables, st.Val)
+			}
+		}
+	}
+	if len(tables) == 0 {
+		return nil
+	}
+	var out []*ssa.Function
+	for _, t := range tables {
+		if t.Referrers() == nil {
+			return nil
+		}
+		n := 0
+		for _, r := range *t.Referrers() {
+			mu, ok := r.(*ssa.MapUpdate)
+			if !ok || mu.Map != t {
+				continue
+			}
+			n++
+			rr := c.resolveFuncValue(mu.Value, depth+1)
+			if rr == nil {
+				return nil
+			}
+			out = append(out, rr...)
+		}
+		if n == 0 {
+			return nil
+		}
+	}
+	return dedupFns(out)
 }
 
 func (c *Ctx) resolveReturnedFuncs(call *ssa.Call, idx int, depth int) []*ssa.Function {
